@@ -400,7 +400,8 @@ NEWLINES_LF = ['\n', '\n', '\r\n']             # newline strings that end in the
 NEWLINES_ANY = ['\r', '', '~~']                # any other newline string (theorem part A; oracle: offsets only for '')
 VALUE_FRAGMENTS = ['10', '1.5', '-5', '0', '10p', '1.25e', '.5', '100x', '2r', '#f', '#fc0', '#f.5', '#t', '#e7bc0b', '#0.25',
                    ':a', ':n', ':b', '-a', '${1}', '${2:x}', '${foo}', '${1:a\nb}', '${3:p q}', '${0}', '"s t"', "'q\nr'",
-                   '(1, 2)', '(a b, ${1:c})', '-lg(top, #f00)', ':r(10)', '${2}${1}', '10-20', '1-2-3', '--v', '-$x']
+                   '(1, 2)', '(a b, ${1:c})', '-lg(top, #f00)', ':r(10)', '${2}${1}', '10-20', '1-2-3', '--v', '-$x',
+                   '"a\nb"', "'x\r\ny z'", '"one\n\ntwo"']
 USER_TABLES = [
     {'foo': 'prop:a b, c d|e', 'bar': 'prop2:f(a, b) c|e', 'baz': 'x ${2:q} ${1}z', 'mq': '@media ${1:screen} {\n\t${0}\n}'},
     {'gg': 'grid:${1:a\nb} ${2}|x', 'ml': 'line one\r\nline two ${1}\n${2:end}', 'two': 'aa:1 2|3'},
